@@ -237,6 +237,12 @@ func c07Handle(c *Ctx) *RuleResult {
 				return true
 			})
 			if cnt == 1 {
+				// the helper forwards one of its own parameters: what counts is the caller's argument
+				for i := 0; i < len(call.Args); i++ {
+					if paramNameAt(fd, i) == arg && arg != "" {
+						return exprStr(call.Args[i]), true
+					}
+				}
 				return arg, true
 			}
 			return "", false
